@@ -64,11 +64,15 @@ wide:
 	}
 }
 
+// stringAtNone is returned by stringAt for an index outside the string. It is
+// not a code unit value (U+FFFD is a legitimate one).
+const stringAtNone rune = -1
+
 func stringAt(str stringObjecter, index int) rune {
 	if 0 <= index && index < str.Length() {
 		return str.At(index)
 	}
-	return utf8.RuneError
+	return stringAtNone
 }
 
 func (rt *runtime) newStringObject(value Value) *object {
@@ -106,7 +110,7 @@ func stringGetOwnProperty(obj *object, name string) *property {
 	}
 	// TODO Test a string of length >= +int32 + 1?
 	if index := stringToArrayIndex(name); index >= 0 {
-		if chr := stringAt(obj.stringValue(), int(index)); chr != utf8.RuneError {
+		if chr := stringAt(obj.stringValue(), int(index)); chr != stringAtNone {
 			return &property{stringValue(string(chr)), 0o010}
 		}
 	}
